@@ -1,7 +1,9 @@
 package props
 
 import (
+	"encoding/json"
 	"fmt"
+	"net/http"
 	"sort"
 	"strings"
 	"sync"
@@ -16,9 +18,9 @@ import (
 // Metamorphic: the output for one group is the same whether or not the other groups are fed.
 
 type c06Point struct {
-	T   int `json:"t_s"`
-	V   int `json:"v"`
-	Opt int `json:"opt"` // -1: field absent
+	T   int  `json:"t_s"`
+	V   int  `json:"v"`
+	Opt int  `json:"opt"`                 // -1: field absent
 	Gap bool `json:"gap_after,omitempty"` // the writer pauses 2 virtual minutes after this point (the idle barrier fires after 30s; the whole backlog of a run takes well under a second of virtual time even with slow sinks)
 }
 
@@ -37,6 +39,8 @@ type c06Scenario struct {
 	Groups  []c06Group `json:"groups"`
 	Script  string     `json:"script"`
 	Configs []string   `json:"configs"`
+
+	httpRows map[int]string // the rows the httpOut endpoint showed at the end of the last run, per group
 }
 
 var c06Nodes = []string{
@@ -60,7 +64,17 @@ var c06Nodes = []string{
 	"|difference('w')",
 	"|barrier().idle(30s).delete(TRUE)\n    |stateCount(lambda: \"v\" >= 0)",
 	"|barrier().idle(30s).delete(TRUE)\n    |eval(lambda: count()).as('c').keep()",
+	// the rows of httpOut are per-group state too: read at the end of the run, after groups have been deleted and re-created
+	"|barrier().idle(30s).delete(TRUE)\n    |httpOut('x')",
+	// a group-by tag is deleted: the groups are then told apart by the remaining dimensions (and the measurement)
+	"|delete().tag('b')\n    |stateCount(lambda: \"v\" > 2)",
+	"|delete().tag('b')\n    |window().periodCount(2).everyCount(2)\n    |sum('v')",
+	// batches of all groups reach a join / union over two edges, through nodes that forward them message by message
+	c06Join, c06Union,
 }
+
+const c06Join = "JOIN of two branches of batches"
+const c06Union = "UNION of two branches of batches"
 
 func lpEscape(s string) string {
 	r := strings.NewReplacer(",", "\\,", "=", "\\=", " ", "\\ ")
@@ -85,6 +99,18 @@ func c06Gen(c *Ctx) *c06Scenario {
 		sc.Chain = append(sc.Chain, nd)
 	}
 	for _, nd := range sc.Chain {
+		if strings.HasPrefix(nd, "|delete().tag('b')") && sc.GroupBy != "a,b" {
+			sc.GroupBy = "a,b"
+		}
+	}
+	for _, nd := range sc.Chain {
+		if nd == c06Join || nd == c06Union {
+			sc.Chain = []string{nd}
+			if sc.GroupBy == "*" {
+				sc.GroupBy = "a,b"
+			}
+			break
+		}
 		if strings.HasPrefix(nd, "|barrier") {
 			// the barrier is driven by the wall clock: downstream of it, windows are also emitted on its messages, whose
 			// number after the last point depends on when the run ends; keep this form on its own
@@ -107,7 +133,7 @@ func c06Gen(c *Ctx) *c06Scenario {
 		}
 		// distinct group-by tag values (and measurement when grouping by it)
 		key := gr.A + "\x00c" + gr.C
-		if sc.GroupBy == "a,b" || sc.GroupBy == "*" {
+		if (sc.GroupBy == "a,b" || sc.GroupBy == "*") && !sc.deletesB() {
 			key += "\x00" + gr.B
 		}
 		if sc.ByM {
@@ -151,12 +177,32 @@ func c06Gen(c *Ctx) *c06Scenario {
 		}
 	}
 	sb.WriteString("\n")
+	if sc.Chain[0] == c06Join || sc.Chain[0] == c06Union {
+		src := "var s = " + sb.String() + "    |window().period(3s).every(3s)\n"
+		src += "var l = s\n    |where(lambda: \"v\" >= 0)\nvar r = s\n    |eval(lambda: \"v\" * 2).as('v2')\n"
+		if sc.Chain[0] == c06Join {
+			src += "l\n    |join(r).as('l', 'r')\n    |log().prefix('OUT')\n"
+		} else {
+			src += "l\n    |union(r)\n    |log().prefix('OUT')\n"
+		}
+		sc.Script = src
+		return sc
+	}
 	for _, nd := range sc.Chain {
 		sb.WriteString("    " + nd + "\n")
 	}
 	sb.WriteString("    |log().prefix('OUT')\n")
 	sc.Script = sb.String()
 	return sc
+}
+
+func (sc *c06Scenario) deletesB() bool {
+	for _, nd := range sc.Chain {
+		if strings.HasPrefix(nd, "|delete().tag('b')") {
+			return true
+		}
+	}
+	return false
 }
 
 // c06Run feeds the groups listed in only (nil = all) and returns the canonical outputs per group index.
@@ -171,6 +217,9 @@ func c06Run(c *Ctx, sc *c06Scenario, only int) (map[int][]string, Verdict) {
 	sc.Configs = append(sc.Configs, fmt.Sprintf("%v p=%.2f pool=%d", cfg.Strategy, cfg.SwitchProb, cfg.PoolMode))
 	var verdict Verdict
 	var d *harness.Daemon
+	httpOut := ""
+	httpRows := map[int]string{}
+	sc.httpRows = httpRows
 	res := c.World(cfg, func() {
 		var err error
 		d, err = harness.NewDaemon(harness.DaemonOpts{})
@@ -222,6 +271,9 @@ func c06Run(c *Ctx, sc *c06Scenario, only int) (map[int][]string, Verdict) {
 		done()
 		simrt.Fair()
 		simrt.WaitIdle()
+		if strings.Contains(sc.Script, "|httpOut('x')") {
+			_, httpOut = d.Do(http.MethodGet, "/kapacitor/v1/tasks/G/x", "")
+		}
 	})
 	if v, bad := WorldVerdict(res, false); bad {
 		return nil, v
@@ -230,6 +282,40 @@ func c06Run(c *Ctx, sc *c06Scenario, only int) (map[int][]string, Verdict) {
 		return nil, verdict
 	}
 	out := map[int][]string{}
+	if httpOut != "" {
+		// the endpoint shows one row per live group: each row must belong to exactly one input group
+		var doc struct {
+			Series []struct {
+				Name    string            `json:"name"`
+				Tags    map[string]string `json:"tags"`
+				Columns []string          `json:"columns"`
+				Values  [][]interface{}   `json:"values"`
+			} `json:"series"`
+		}
+		if err := json.Unmarshal([]byte(httpOut), &doc); err != nil {
+			return nil, Fail("harness/setup", "httpOut endpoint: %v: %s", err, truncateStr(httpOut, 300))
+		}
+		seen := map[int]bool{}
+		for _, se := range doc.Series {
+			gi := -1
+			for i, gr := range sc.Groups {
+				if se.Tags["a"] == gr.A && (sc.GroupBy == "a" || se.Tags["b"] == gr.B) && (sc.GroupBy != "*" || se.Tags["c"] == gr.C) && (!sc.ByM || se.Name == gr.M) {
+					gi = i
+				}
+			}
+			row := fmt.Sprintf("httpOut row %v %v", se.Columns, se.Values)
+			if gi < 0 {
+				return nil, Fail("unattributable-output", "the httpOut endpoint shows a row with tags %v (name %s) that belong to no input group: %s", se.Tags, se.Name, row)
+			}
+			if seen[gi] {
+				v := Fail("group-interference", "the httpOut endpoint shows two rows for the group %v (name %s): %s", se.Tags, se.Name, truncateStr(httpOut, 600))
+				v.Shape = map[string]interface{}{"crafted_separators": c06Crafted(sc), "httpOut": true}
+				return nil, v
+			}
+			seen[gi] = true
+			httpRows[gi] = row
+		}
+	}
 	for _, o := range d.Sinks.Get("OUT") {
 		var tags map[string]string
 		var line string
@@ -248,7 +334,7 @@ func c06Run(c *Ctx, sc *c06Scenario, only int) (map[int][]string, Verdict) {
 		// attribute the output to an input group through the tag values it carries (never through GroupID strings)
 		gi := -1
 		for i, gr := range sc.Groups {
-			if tags["a"] == gr.A && (sc.GroupBy == "a" || tags["b"] == gr.B) && (sc.GroupBy != "*" || tags["c"] == gr.C) && (!sc.ByM || name == gr.M) {
+			if tags["a"] == gr.A && (sc.GroupBy == "a" || sc.deletesB() || tags["b"] == gr.B) && (sc.GroupBy != "*" || tags["c"] == gr.C) && (!sc.ByM || name == gr.M) {
 				gi = i
 			}
 		}
@@ -256,6 +342,12 @@ func c06Run(c *Ctx, sc *c06Scenario, only int) (map[int][]string, Verdict) {
 			return nil, Fail("unattributable-output", "an output carries group tags %v (name %s) that belong to no input group: %s", tags, name, line)
 		}
 		out[gi] = append(out[gi], line)
+	}
+	if sc.Chain[0] == c06Union {
+		// which parent's batch of one time comes first is the union's business (one group, two parents), not group interference
+		for gi := range out {
+			sort.Strings(out[gi])
+		}
 	}
 	return out, Verdict{}
 }
@@ -372,6 +464,7 @@ func runC06(c *Ctx) Verdict {
 	if v.Class != "" {
 		return v
 	}
+	allRows := sc.httpRows
 	shape := map[string]interface{}{"group_by": sc.GroupBy, "uses_optional_field": strings.Contains(sc.Script, "\"opt\""), "crafted_separators": c06Crafted(sc)}
 	trivial := true
 	for gi := range sc.Groups {
@@ -386,6 +479,13 @@ func runC06(c *Ctx) Verdict {
 			if other != gi {
 				return Fail("harness/attribution", "feeding only group %d produced output attributed to group %d", gi, other)
 			}
+		}
+		if row, ok := allRows[gi]; ok && row != sc.httpRows[gi] {
+			// (a group that fell silent long enough has no row; one that has a row shows its own last point)
+			v := Fail("group-interference", "the httpOut row of group #%d (a=%q b=%q %s) differs when the other groups are fed too.\nfed alone:           %s\nfed with the others: %s\nscript:\n%s",
+				gi, sc.Groups[gi].A, sc.Groups[gi].B, sc.Groups[gi].M, sc.httpRows[gi], row, sc.Script)
+			v.Shape = shape
+			return v
 		}
 		if strings.Join(all[gi], "\n") != strings.Join(alone[gi], "\n") {
 			v := Fail("group-interference", "the output for group #%d (a=%q b=%q %s) differs when the other groups are fed too.\nfed alone (%d outputs):\n%s\nfed with the others (%d outputs):\n%s\nscript:\n%s",
